@@ -1922,3 +1922,42 @@ def m_str_join(interp, st, base, base_node, args, kwargs, node):
 
 
 METHODS[("str", "join")] = m_str_join
+
+
+def np_expand_dims(interp, st, args, kwargs, node):
+    a = args[0]
+    axis = kwargs.get("axis", args[1] if len(args) > 1 else None)
+    if isinstance(a, Arr) and axis == 0:
+        return Arr((1,) + tuple(a.shape), list(a.flat), a.kind)
+    raise Outside("np.expand_dims other than (constant-shape array, 0)", node)
+
+
+def np_concatenate(interp, st, args, kwargs, node):
+    """np.concatenate((a, b, ...), axis=0) of arrays with the same trailing shape: the rows of a, then those of b, ..."""
+    M = _M()
+    parts = args[0]
+    axis = kwargs.get("axis", args[1] if len(args) > 1 else 0)
+    if axis != 0 or not isinstance(parts, (list, tuple)) or not parts:
+        raise Outside("np.concatenate other than a tuple of arrays along axis 0", node)
+    grids = [M.arr_to_grid(p) if isinstance(p, Arr) else p for p in parts]
+    if not all(isinstance(g, Grid) and g.rank == grids[0].rank for g in grids):
+        raise Outside("np.concatenate of non-arrays / different ranks", node)
+    for g in grids[1:]:
+        for k in range(1, g.rank):
+            interp.ctx.oblige(st, M.s_cmp(ast.Eq(), g.dims[k], grids[0].dims[k]), f"concatenate-shape@{getattr(node, 'lineno', '?')}", node, "shape")
+    total = 0
+    offs = []
+    for g in grids:
+        offs.append(total)
+        total = M.s_add(total, g.dims[0])
+
+    def fn(idx):
+        out = grids[-1].select([to_z3(idx[0]) - to_z3(offs[-1])] + list(idx[1:]))
+        for g, o in zip(reversed(grids[:-1]), reversed(offs[:-1])):
+            out = z3.If(to_z3(idx[0]) < to_z3(o) + to_z3(g.dims[0]), g.select([to_z3(idx[0]) - to_z3(o)] + list(idx[1:])), out)
+        return out
+
+    return M.grid_lambda([total] + list(grids[0].dims[1:]), grids[0].kind, fn)
+
+
+LIBFUNCS.update({"np.expand_dims": np_expand_dims, "np.concatenate": np_concatenate})
